@@ -546,6 +546,8 @@ def decode_row(cells, v, t, n, c, maxr, specials, fmt=canon, flags=None):
     """cells: list of canonical strings or None."""
     if cells is None:
         return -2
+    if len(cells) == 0 and n > 0:
+        return -1          # an empty list where a null or n values belong
     desc_kind = v["kind"]
     if desc_kind in ("bool_tuning", "bool_div", "bool_parity"):
         return 1000 + (1 if cells[0] in ("true", "1") else 0) if len(cells) == 1 else -1
@@ -661,6 +663,10 @@ def project_storage(d):
         keys = set()
         for c in range(chains):
             if backend == "csv":
+                # a chain file without a single kept record is a header only: nothing to demand of it
+                kept = sum(1 for (t, _dv, _up) in log[c] if sc.get("store_warmup", True) or not t)
+                if kept == 0:
+                    continue
                 for nm in CSV_STATS.values():
                     if nm in stats:
                         keys.add(("stats", nm, c))
